@@ -12,8 +12,9 @@ def item_match(impl, spec):
     for a, b in zip(wi, ws):
         if b == '*':
             continue
-        if b == '+':
-            if a == '0':
+        if b.startswith('+'):
+            # an identifier the library assigns: non-zero and none of those in flight (listed after '!')
+            if a == '0' or a in b[2:].split(','):
                 return False
             continue
         if a != b:
@@ -63,6 +64,8 @@ CLIENT_ASSUMPTIONS = [
     "the peer is scripted over TCP on 127.0.0.1; a PINGREQ/PINGRESP barrier from the peer bounds each event",
     "the interleaving between packets the peer receives and callbacks firing inside one event is not observable: outputs are compared as (packets in order, completions in order, message callbacks as a multiset)",
     "ack queues are the FIFO lists of Spec.Fifo (justified by C13); completion order is the FIFO order (the latest the property permits)",
+    "an acknowledgement written #<tag> on an op line bears the identifier the request with that completion tag was written with (each stream resolves it from its own output: the scripted peer acknowledges what it received); the specification knows a request whose identifier the library assigns by a name outside the 16-bit range and demands of the value only: non-zero, not in flight",
+    "the process-wide counter behind automatic identifiers is set to 0 by every reset and to the given value by `client setctr` (stands for the identifiers other connections of the process have drawn), on the implementation (verif hook) and in the model",
     "a message callback id on an op line stands for the Subscribe request (service.subscribe allocates one &onPublish pointer per call, and the client invokes each pointer once per message): a Subscribe line that reuses a callback id of its episode is refused (bad-op) by harness and driver alike",
 ]
 
